@@ -624,6 +624,52 @@ func (c *Ctx) goArgs() {
 	}
 	r.Extra["go_statements"] = n
 	r.Extra["go_statements_reference"] = 3
+	// what the goroutines run does not ask whether the request that started them
+	// has ended: the context they are handed is the request's, cancelled when the
+	// handler returns, and work that consults it happens or not depending on which
+	// of the two gets there first
+	started := map[*ssa.Function]bool{}
+	var mark func(f *ssa.Function, d int)
+	mark = func(f *ssa.Function, d int) {
+		if f == nil || started[f] || d > 4 || !c.inRepo(f) {
+			return
+		}
+		started[f] = true
+		for _, call := range Calls(f) {
+			if g := StaticCallee(call); g != nil {
+				mark(g, d+1)
+			}
+			// the mailer behind the interface: the shipped implementations
+			if cc := call.Common(); cc.IsInvoke() && cc.Method.Name() == "Send" && strings.HasSuffix(cc.Value.Type().String(), ".Mailer") {
+				for _, nm := range []string{"(ab/defaults.SMTPMailer).Send", "(ab/defaults.LogMailer).Send"} {
+					mark(c.P.FuncOpt(nm), d+1)
+				}
+			}
+		}
+	}
+	for _, fn := range c.P.Funcs {
+		for _, b := range fn.Blocks {
+			for _, in := range b.Instrs {
+				if g, ok := in.(*ssa.Go); ok {
+					mark(g.Call.StaticCallee(), 0)
+					if mc, isMC := g.Call.Value.(*ssa.MakeClosure); isMC {
+						if f, isF := mc.Fn.(*ssa.Function); isF {
+							mark(f, 0)
+						}
+					}
+				}
+			}
+		}
+	}
+	for f := range started {
+		for _, call := range Calls(f) {
+			cc := call.Common()
+			if cc.IsInvoke() && (cc.Method.Name() == "Err" || cc.Method.Name() == "Done" || cc.Method.Name() == "Deadline") && strings.HasSuffix(cc.Value.Type().String(), "context.Context") {
+				r.Bad("C20.go-ctx", FuncName(f), "ctx."+cc.Method.Name()+"()", posf(c, call.(ssa.Instruction)), "code the library runs in its own goroutines asks whether the request's context has ended: the request ends when its handler returns, so whether this work (the mail) happens depends on the schedule of the two")
+			}
+		}
+	}
+	r.Extra["goroutine_functions"] = len(started)
 }
 
 // singleWrite: default components that multiplex onto one shared writer emit
@@ -1363,6 +1409,17 @@ func aliasEscapes(v ssa.Value, d int) ssa.Instruction {
 				return e
 			}
 		case *ssa.ChangeType:
+			if e := aliasEscapes(x, d+1); e != nil {
+				return e
+			}
+		case *ssa.Call:
+			// library functions that hand back a sub-slice of their argument
+			if n := Callee(x); strings.HasPrefix(n, "bytes.Trim") && len(x.Call.Args) > 0 && x.Call.Args[0] == v {
+				if e := aliasEscapes(x, d+1); e != nil {
+					return e
+				}
+			}
+		case *ssa.Extract:
 			if e := aliasEscapes(x, d+1); e != nil {
 				return e
 			}
